@@ -2,6 +2,7 @@ SPECIFICATION Spec
 CONSTANTS
   Keys = {"k1", "k2", "k3", "w"}
   Wild = {"w"}
+  KeyDom <- MCKeyDom
 INVARIANT Inv
 CONSTRAINT Bound
 CHECK_DEADLOCK FALSE
